@@ -191,12 +191,12 @@ def dispatchX : List String → Option (Obs × Option Obs)
     let all := match findSequencesOnDisk d xDir { single := true, hidden := true, style := st } with
       | .ok l => l | .error _ => []
     if !xDirDomain names all then some (skipObs, none) else
-    match findSequenceOnDisk (fun _ => d) pat st false false with
-    | .error _ => some ([("err", "err")], some [("err", "err")])
-    | .ok none => let ob : Obs := [("err", "ok"), ("found", "0")]; some (ob, some ob)
-    | .ok (some s) =>
-      let ob : Obs := [("err", "ok"), ("found", "1")] ++ xSeqsObs [s]
-      some (ob, some ob)
+    -- the port: its own lookup (Cpp.find); the Go library: findSequenceOnDisk
+    let obOf : Except Err (Option Seq) → Obs
+      | .error _ => [("err", "err")]
+      | .ok none => [("err", "ok"), ("found", "0")]
+      | .ok (some s) => [("err", "ok"), ("found", "1")] ++ xSeqsObs [s]
+    some (obOf (Cpp.find (fun _ => d) pat st), some (obOf (findSequenceOnDisk (fun _ => d) pat st false false)))
   | _ => none
 
 end Gfs.Ops
